@@ -23,7 +23,7 @@ PROPS['C19'] = dict(
          'argument class) cells in which at least one input was judged - NOT the number of inputs (evaluations).',
     exhaustive={'thorough': 'all 2^32 arguments of a_u32_sqrt; all words of a_u8_rev, a_u16_rev, a_u32_rev; all gcd/lcm pairs < 1024',
                 'quick': None},
-    require=['sqrt32', 'sqrt64', 'gcd32', 'gcd64', 'lcm32', 'lcm64', 'rev', 'setl-layout', 'setb-layout', 'getl-inverse', 'getb-inverse', 'gcd-longest-euclid-chains', 'exported-accessors-back-to-back'],
+    require=['sqrt32', 'sqrt64', 'gcd32', 'gcd64', 'lcm32', 'lcm64', 'rev', 'setl-layout', 'setb-layout', 'getl-inverse', 'getb-inverse', 'gcd-longest-euclid-chains', 'exported-accessors-back-to-back', 'sqrt64-around-small-multiples-of-powers-of-two'],
     cov_files=['math.c', 'a.c'],
     cov_cases=200, cov_funcs=r'^a_u(8|16|32|64)_',
     assumptions=COMMON_ASSUMPTIONS + ['"regardless of host byte order" is exercised on this little-endian host only'],
